@@ -21,11 +21,13 @@ import (
 	"go/parser"
 	"go/token"
 	"math/big"
+	"os"
 	"path/filepath"
 	"reflect"
 	"sort"
 	"strconv"
 	"strings"
+	"time"
 
 	"golang.org/x/crypto/ssh"
 	"verif/ref/sshwire"
@@ -476,6 +478,16 @@ func (a *alphabet) values(f sshwire.Field, label string) []sshwire.Value {
 	return out
 }
 
+func smallOnly(in []sshwire.Value) []sshwire.Value {
+	var out []sshwire.Value
+	for _, v := range in {
+		if len(v.B) <= 24 && (v.Int == nil || v.Int.BitLen() <= 136) {
+			out = append(out, v)
+		}
+	}
+	return out
+}
+
 // bases: a minimal assignment (everything empty/zero) and a non-trivial one.
 func (a *alphabet) base(mi *msgInfo, which int) []sshwire.Value {
 	vals := make([]sshwire.Value, len(mi.layout))
@@ -524,6 +536,30 @@ func (a *alphabet) base(mi *msgInfo, which int) []sshwire.Value {
 type checker struct {
 	c *vf.Ctx
 	a *alphabet
+}
+
+// tally batches the per-call counters of one worker (the Ctx counters take a lock).
+type tally struct {
+	evals  int
+	counts map[string]int
+}
+
+func (t *tally) outcome(k string) {
+	if t.counts == nil {
+		t.counts = map[string]int{}
+	}
+	t.counts[k]++
+}
+
+func (t *tally) flush(c *vf.Ctx) {
+	c.Eval(t.evals)
+	for k, n := range t.counts {
+		for i := 0; i < n && i < 1; i++ {
+			c.Outcome(k)
+		}
+		c.Add("outcome_"+k, int64(n))
+	}
+	t.evals, t.counts = 0, nil
 }
 
 func short(b []byte) string { return vf.Hex8(b) }
@@ -582,14 +618,14 @@ func clip(b []byte) []byte {
 
 // conform: Unmarshal(data) into mi must agree with the reference decoder: same
 // accept/reject decision, same values; never a panic.
-func (k *checker) conform(mi *msgInfo, data []byte, what string) {
+func (k *checker) conform(mi *msgInfo, data []byte, what string, t *tally) {
 	c := k.c
 	want, werr := mi.refDecode(data)
 	out := reflect.New(mi.typ)
 	var err error
 	in := append([]byte(nil), data...)
 	pan, pv, _ := vf.Protect(func() { err = ssh.Unmarshal(in, out.Interface()) })
-	c.Eval(1)
+	t.evals++
 	if pan {
 		c.Violation("Unmarshal panics ("+mi.name+", "+what+")", map[string]any{"input": fmt.Sprintf("%x", clip(data)), "len": len(data), "panic": fmt.Sprint(pv)})
 		return
@@ -603,16 +639,24 @@ func (k *checker) conform(mi *msgInfo, data []byte, what string) {
 		return
 	}
 	if err != nil {
-		c.Outcome("reject")
+		t.outcome("reject")
 		return
 	}
-	c.Outcome("accept")
+	t.outcome("accept")
 	if ok, i := valsEqual(mi.layout, want, mi.read(out)); !ok {
 		c.Violation("Unmarshal value differs from RFC decoding ("+mi.name+", "+what+")", map[string]any{"input": fmt.Sprintf("%x", clip(data)), "field": mi.typ.Field(mi.fields[i]).Name})
 	}
 }
 
 // ---------------------------------------------------------------------------------
+
+var phaseStart = time.Now()
+
+func phase(name string) {
+	if os.Getenv("VERIF_DEBUG") != "" {
+		fmt.Fprintf(os.Stderr, "phase %-28s +%.1fs\n", name, time.Since(phaseStart).Seconds())
+	}
+}
 
 func run(c *vf.Ctx) {
 	c.Rule("structs = every struct type of ssh/messages.go + 10 ad hoc structs covering every supported field kind, tag variants and named field types. " +
@@ -655,8 +699,11 @@ func run(c *vf.Ctx) {
 	c.Set("structs", len(msgs))
 
 	// ---- (2) mpint primitives
+	phase("inventory done")
 	k.mpintPrimitives()
+	phase("mpint primitives done")
 	k.growGrid(msgs)
+	phase("grow grid done")
 
 	// ---- (1) round trips, collecting sample encodings for the fault enumeration
 	var samples []sample
@@ -688,6 +735,10 @@ func run(c *vf.Ctx) {
 			vals := make([]sshwire.Value, len(mi.layout))
 			for fi, f := range mi.layout {
 				alts := k.a.values(f, mi.name)
+				if d < 2 {
+					// these two also seed the fault enumeration: keep them short
+					alts = smallOnly(alts)
+				}
 				vals[fi] = alts[(d*7+fi*3+1)%len(alts)]
 			}
 			k.roundTrip(mi, vals, fmt.Sprintf("diagonal %d", d))
@@ -702,6 +753,7 @@ func run(c *vf.Ctx) {
 		c.Sample(map[string]any{"struct": mi.name, "encoding": fmt.Sprintf("%x", enc)})
 	}
 
+	phase("round trips done")
 	// ---- unsupported field kinds: Unmarshal returns an error, never panics
 	for _, p := range []func() interface{}{func() interface{} { return new(badInt) }, func() interface{} { return new(badSliceInt) }, func() interface{} { return new(badPtr) },
 		func() interface{} { return new(badArr) }, func() interface{} { return new(badFloat) }, func() interface{} { return new(badNested) }} {
@@ -735,15 +787,18 @@ func run(c *vf.Ctx) {
 	// length 0,1,2: everything, every struct
 	c.ParallelFor(len(all), func(i int) {
 		mi := all[i]
-		k.conform(mi, []byte{}, "empty")
+		var t tally
+		k.conform(mi, []byte{}, "empty", &t)
 		for a := 0; a < 256; a++ {
-			k.conform(mi, []byte{byte(a)}, "len1")
+			k.conform(mi, []byte{byte(a)}, "len1", &t)
 			for b := 0; b < 256; b++ {
-				k.conform(mi, []byte{byte(a), byte(b)}, "len2")
+				k.conform(mi, []byte{byte(a), byte(b)}, "len2", &t)
 			}
 		}
+		t.flush(c)
 		c.Nontrivial("short/" + mi.name)
 	})
+	phase("len<=2 done")
 	// length 3
 	type job struct {
 		mi    *msgInfo
@@ -760,8 +815,10 @@ func run(c *vf.Ctx) {
 			}
 			// quick: for tagged structs the 255 wrong first bytes are covered by len<=2 and the
 			// all-256-type-bytes fault class; enumerate the tails only behind an accepted type byte,
-			// and behind a neighbouring wrong one as a control. Untagged structs: every first byte.
-			if c.Thorough || len(mi.tags) == 0 || isTag || (len(mi.tags) > 0 && first == int(mi.tags[0])+1) {
+			// and behind a neighbouring wrong one as a control. Untagged structs (first byte is data):
+			// the boundary first bytes. thorough: every first byte for every struct.
+			bnd := first == 0 || first == 1 || first == 0x7f || first == 0x80 || first == 0xff
+			if c.Thorough || (len(mi.tags) == 0 && bnd) || isTag || (len(mi.tags) > 0 && first == int(mi.tags[0])+1) {
 				jobs = append(jobs, job{mi, first})
 			}
 		}
@@ -769,15 +826,19 @@ func run(c *vf.Ctx) {
 	c.ParallelFor(len(jobs), func(i int) {
 		j := jobs[i]
 		buf := []byte{byte(j.first), 0, 0}
+		var t tally
 		for a := 0; a < 256; a++ {
 			for b := 0; b < 256; b++ {
 				buf[1], buf[2] = byte(a), byte(b)
-				k.conform(j.mi, buf, "len3")
+				k.conform(j.mi, buf, "len3", &t)
 			}
 		}
+		t.flush(c)
+		c.Nontrivial(fmt.Sprintf("len3/%s/%d", j.mi.name, j.first))
 	})
 	c.Set("len3_first_bytes_enumerated", len(jobs))
 
+	phase("len3 done")
 	// 3b: faults of valid encodings
 	c.ParallelFor(len(samples), func(i int) {
 		s := samples[i]
@@ -786,6 +847,7 @@ func run(c *vf.Ctx) {
 		c.Add("fault_inputs", int64(n))
 	})
 
+	phase("faults done")
 	// ---- decode
 	k.decodeCheck(msgs, samples2enc(samples))
 }
@@ -861,11 +923,17 @@ func faultSet(c *vf.Ctx, enc []byte, lenOffs []int, tagged bool, visit func(kind
 
 func (k *checker) faults(mi *msgInfo, enc []byte, lenOffs []int, si int) int {
 	n := 0
+	var t tally
+	seen := map[string]bool{}
 	faultSet(k.c, enc, lenOffs, len(mi.tags) > 0, func(kind string, pos int, data []byte) {
-		k.conform(mi, data, kind)
-		k.c.Nontrivial(fmt.Sprintf("fault/%s/%s/%d", mi.name, kind, pos))
+		k.conform(mi, data, kind, &t)
+		seen[fmt.Sprintf("fault/%s/%s/%d", mi.name, kind, pos)] = true
 		n++
 	})
+	t.flush(k.c)
+	for key := range seen {
+		k.c.Nontrivial(key)
+	}
 	return n
 }
 
@@ -1091,12 +1159,12 @@ func (k *checker) decodeCheck(msgs []*msgInfo, samples []encSample) {
 	sort.Strings(names)
 	c.Set("decode_dispatch", names)
 
-	one := func(data []byte, what string) {
+	one := func(data []byte, what string, t *tally) {
 		var v interface{}
 		var err error
 		in := append([]byte(nil), data...)
 		pan, pv, _ := vf.Protect(func() { v, err = ssh.VerifC24Decode(in) })
-		c.Eval(1)
+		t.evals++
 		if pan {
 			cls := "decode panics (" + what + ")"
 			if len(data) == 0 {
@@ -1120,7 +1188,7 @@ func (k *checker) decodeCheck(msgs []*msgInfo, samples []encSample) {
 			if err == nil {
 				c.Violation("decode accepts a packet with a type byte it has no struct for ("+what+")", fmt.Sprintf("%x", clip(data)))
 			}
-			c.Outcome("decode-unknown-type")
+			t.outcome("decode-unknown-type")
 			return
 		}
 		want, werr := mi.refDecode(data)
@@ -1138,10 +1206,10 @@ func (k *checker) decodeCheck(msgs []*msgInfo, samples []encSample) {
 			return
 		}
 		if err != nil {
-			c.Outcome("decode-reject")
+			t.outcome("decode-reject")
 			return
 		}
-		c.Outcome("decode-accept")
+		t.outcome("decode-accept")
 		rv := reflect.ValueOf(v)
 		if rv.Type().Elem() != mi.typ {
 			c.Violation("decode returns a different struct for the same type byte", map[string]any{"input": fmt.Sprintf("%x", clip(data)), "got": rv.Type().String(), "want": mi.name})
@@ -1152,19 +1220,23 @@ func (k *checker) decodeCheck(msgs []*msgInfo, samples []encSample) {
 		}
 	}
 
-	one([]byte{}, "empty")
+	var t0 tally
+	one([]byte{}, "empty", &t0)
+	t0.flush(c)
 	c.ParallelFor(256, func(a int) {
-		one([]byte{byte(a)}, "len1")
+		var t tally
+		one([]byte{byte(a)}, "len1", &t)
 		buf2 := []byte{byte(a), 0}
 		buf3 := []byte{byte(a), 0, 0}
 		for b := 0; b < 256; b++ {
 			buf2[1] = byte(b)
-			one(buf2, "len2")
+			one(buf2, "len2", &t)
 			for d := 0; d < 256; d++ {
 				buf3[1], buf3[2] = byte(b), byte(d)
-				one(buf3, "len3")
+				one(buf3, "len3", &t)
 			}
 		}
+		t.flush(c)
 		c.Nontrivial(fmt.Sprintf("decode/short/%d", a))
 	})
 	c.ParallelFor(len(samples), func(i int) {
@@ -1172,10 +1244,16 @@ func (k *checker) decodeCheck(msgs []*msgInfo, samples []encSample) {
 		if s.mi.synthetic {
 			return
 		}
+		var t tally
+		seen := map[string]bool{}
 		faultSet(c, s.enc, s.lenOffs, true, func(kind string, pos int, data []byte) {
-			one(data, kind)
-			c.Nontrivial(fmt.Sprintf("decode/%s/%s/%d", s.mi.name, kind, pos))
+			one(data, kind, &t)
+			seen[fmt.Sprintf("decode/%s/%s/%d", s.mi.name, kind, pos)] = true
 		})
+		t.flush(c)
+		for key := range seen {
+			c.Nontrivial(key)
+		}
 	})
 }
 
